@@ -53,11 +53,13 @@ Proof.
 Qed.
 
 (* DriverQuery: the write poll is requested beyond what the send queue asks for only while the handshake wants to write,
-   or to restore a suppressed request; it is taken away only while the handshake wants to read, and then remembered *)
+   for a client whose handshake has not started yet (its first flight), or to restore a suppressed request; it is taken
+   away only while the handshake wants to read, and then remembered *)
 Theorem query_requests_write_only_for_handshake : forall t ev,
   let '(t', ev') := tls_query t ev in
   (has_bit ev POLLOUT = false -> has_bit ev' POLLOUT = true ->
-     (t_init t = false /\ t_last t = E_WANT_WRITE) \/ (t_init t = true /\ t_supp t = true)) /\
+     (t_init t = false /\ (t_last t = E_WANT_WRITE \/ (t_last t = E_NONE /\ t_started t = false /\ t_server t = false)))
+     \/ (t_init t = true /\ t_supp t = true)) /\
   (has_bit ev POLLOUT = true -> has_bit ev' POLLOUT = false ->
      t_init t = false /\ t_last t = E_WANT_READ /\ t_supp t' = true).
 Proof.
@@ -66,14 +68,27 @@ Proof.
   - destruct (t_supp t) eqn:Es.
     + split; [intros _ _; right; auto|]. intros _ H. rewrite has_bit_lor_self in H by (unfold POLLOUT; lia). discriminate.
     + split; intros H1 H2; rewrite H1 in H2; discriminate.
-  - destruct (t_last t =? E_WANT_WRITE) eqn:Ew.
-    + apply Z.eqb_eq in Ew. split; [intros _ _; left; auto|].
-      intros _ H. rewrite has_bit_lor_self in H by (unfold POLLOUT; lia). discriminate.
+  - destruct ((t_last t =? E_WANT_WRITE) || ((t_last t =? E_NONE) && negb (t_started t) && negb (t_server t))) eqn:Ew.
+    + split.
+      * intros _ _. left. split; [reflexivity|]. apply orb_true_iff in Ew. destruct Ew as [Ew|Ew].
+        -- left. now apply Z.eqb_eq.
+        -- right. apply andb_true_iff in Ew. destruct Ew as [Ew Hs]. apply andb_true_iff in Ew. destruct Ew as [Hn Hst].
+           apply Z.eqb_eq in Hn. apply negb_true_iff in Hs. apply negb_true_iff in Hst. auto.
+      * intros _ H. rewrite has_bit_lor_self in H by (unfold POLLOUT; lia). discriminate.
     + destruct (t_last t =? E_WANT_READ) eqn:Er.
       * apply Z.eqb_eq in Er. split.
         -- intros _ H. rewrite has_bit_clear in H. discriminate.
         -- intros H _. split; [reflexivity|]. split; [assumption|]. cbn. rewrite H. apply orb_true_r.
       * split; intros H1 H2; rewrite H1 in H2; discriminate.
+Qed.
+
+(* a client's first flight: before the engine was ever entered, the write event is requested — the handshake starts by
+   itself, whatever the order of the two sides' calls (finding F9 was the absence of exactly this) *)
+Theorem idle_client_requests_write : forall t ev,
+  t_init t = false -> t_last t = E_NONE -> t_started t = false -> t_server t = false ->
+  has_bit (snd (tls_query t ev)) POLLOUT = true.
+Proof.
+  intros t ev Hi Hl Hs Hv. unfold tls_query. rewrite Hi, Hl, Hs, Hv. cbn. apply has_bit_lor_self. unfold POLLOUT. lia.
 Qed.
 
 (* ... and a suppressed write request comes back as soon as the handshake is complete: queued sends are not forgotten *)
@@ -100,3 +115,4 @@ Print Assumptions fatal_engine_errors_throw.
 Print Assumptions write_accounting.
 Print Assumptions query_requests_write_only_for_handshake.
 Print Assumptions suppressed_write_poll_is_restored.
+Print Assumptions idle_client_requests_write.
